@@ -181,7 +181,7 @@ where
 
         let bound = state.get_value::<MutationStrength<Self>>();
         ensure!(bound >= 0., "bound must be positive");
-        let distr = Uniform::new(0., bound);
+        let distr = Uniform::new_inclusive(0., bound);
 
         let rm = state.borrow::<MutationRate<Self>>().value()?;
 
